@@ -495,10 +495,13 @@ func c01BlockLen(p c01Plan) int {
 
 func runC01(c *fw.Ctx) {
 	runSpxFamily(c, "C01")
-	if vsched.DefaultPolicy == 0 {
-		runC01Table(c)
-	}
-	runC01Upload(c)
+	// last: if the time budget runs out it is the long histories that are cut short
+	defer func() {
+		if vsched.DefaultPolicy == 0 {
+			runC01Table(c)
+		}
+		runC01Upload(c)
+	}()
 	thorough := c.Tier == "thorough"
 	var item int64
 	sampled := 0
